@@ -8,6 +8,7 @@ import (
 	"strings"
 
 	astits "github.com/asticode/go-astits"
+	"verif/mc"
 	"verif/ref"
 )
 
@@ -81,6 +82,9 @@ func (w *RecWriter) Write(p []byte) (int, error) {
 			return k, w.FailErr
 		}
 		return 0, w.FailErr
+	}
+	if len(w.Buf) > 1<<28 {
+		panic("the Muxer has written more than 256 MB to the writer of the check")
 	}
 	w.Buf = append(w.Buf, p...)
 	w.Accepted += len(p)
@@ -358,6 +362,7 @@ func esDescs(kind string) []*astits.Descriptor {
 
 // Do executes one operation on the real Muxer and records the call.
 func (h *MuxH) Do(op MOp, seed int64) *MCall {
+	defer mc.Guard(func() any { return "muxer call " + op.String() })()
 	c := MCall{Op: op, From: len(h.W.Buf), WFrom: h.W.Writes}
 	idx := 0
 	if h.Tag {
